@@ -211,7 +211,8 @@ def lean_check(prop_id: str, extra_targets: Iterable[str] = (), pre: Callable[[]
     for m in transitive_imports(mod):
         code = strip_lean_comments(lean_module_path(m).read_text())
         for tok in FORBIDDEN:
-            if tok in code:
+            # whole-word match: `c08_probe_admitted` is not `admit`
+            if re.search(r"(?<![A-Za-z0-9_'.])" + re.escape(tok.strip()) + r"(?![A-Za-z0-9_'])", code):
                 rep.forbidden.append(f"{m}: {tok.strip()}")
         if re.search(r"(?m)^\s*axiom\s", code):
             rep.forbidden.append(f"{m}: axiom")
